@@ -124,3 +124,9 @@ package dns
 //@   requires dns != nil
 //@   callsite "msgLenWithCompressionMap" which: arg0 == dns && ((dns.Compress && callres("isCompressible")) ? (arg1 != nil && fresh(arg1)) : arg1 == nil)
 //@   exit res: ret0 == callres("msgLenWithCompressionMap")
+
+// the generated len methods size a base64 field with base64.StdEncoding.DecodedLen: the packer must decode with that
+// same (padded) encoding, or a text the other encoding accepts would pack to more octets than were counted
+//@ func fromBase64 [C08]
+//@   callsite "DecodedLen" std: arg0 == base64.StdEncoding
+//@   callsite "Decode" stddec: arg0 == base64.StdEncoding
